@@ -1513,8 +1513,8 @@ func genSqlSites(x *Ctx) (string, interface{}, error) {
 			}
 			bs = append(bs, "."+x)
 		}
-		fmt.Fprintf(&b, "  { id := %s, drv := %s, file := %s, fn := %s, via := %s, call := %s,\n    tmpl := %s,\n    pieces := [%s],\n    bound := [%s] }",
-			leanStr(s.ID), leanStr(s.Drv), leanStr(s.File), leanStr(s.Fn), leanStr(s.Via), leanStr(s.Call), leanStr(s.Tmpl),
+		fmt.Fprintf(&b, "  { id := %s, num := 0x%s, drv := %s, file := %s, fn := %s, via := %s, call := %s,\n    tmpl := %s,\n    pieces := [%s],\n    bound := [%s] }",
+			leanStr(s.ID), s.ID, leanStr(s.Drv), leanStr(s.File), leanStr(s.Fn), leanStr(s.Via), leanStr(s.Call), leanStr(s.Tmpl),
 			strings.Join(ps, ",\n      "), strings.Join(bs, ", "))
 		if i+1 < len(sites) {
 			b.WriteString(",")
